@@ -28,6 +28,7 @@ PINNED = {
     "limitReached": "(processed ≥ maxSize)",
     "processedAfter": "(processed + 1)",
     "skipsEmptyTables": True,
+    "ownsRows": "true",
 }
 
 
@@ -321,6 +322,86 @@ def skips_empty(src):
     raise KeyError("while row is None")
 
 
+# ----------------------------------------------------------------------------- frames derived from a frame
+
+DERIVING = ("slice", "head", "tail", "query", "distinct", "__add__", "to_batches")
+_LIST_MUTATORS = ("append", "extend", "insert")
+
+
+def _is_view(e, fn):
+    """`rows=` a generator: a generator expression, or a call of a generator function nested in the method."""
+    if isinstance(e, ast.GeneratorExp):
+        return True
+    if isinstance(e, ast.Call) and isinstance(e.func, ast.Name) and not e.args and not e.keywords:
+        for n in ast.walk(fn):
+            if isinstance(n, ast.FunctionDef) and n is not fn and n.name == e.func.id:
+                return any(isinstance(y, (ast.Yield, ast.YieldFrom)) for y in ast.walk(n))
+    return False
+
+
+def owns_rows(src, name, depth=0):
+    """A Lean Bool term: does every frame that `DataFrame.<name>` hands out own its row list?
+
+    `true` when each `DataFrame(…, rows=E)` built in the method gets a list nobody else holds — a slice
+    `xs[a:b]`, a list display / comprehension, `list(…)`, `sorted(…)`, a concatenation `xs + ys`, or a local that
+    is only ever bound to such expressions — and the method never returns `self`.  `false` as soon as one of them
+    is handed the parent's own `self._rows` (or a local bound to it): then two frames walk one list, and an
+    append through either is seen by the cursor of the other.  A method that only delegates
+    (`return self.slice(…)`) owns what the delegate owns.  A generator expression is a lazy *view* (select /
+    filter / take): not this definition's business.  Anything unrecognised raises (the item degrades)."""
+    fn = find_function(src.tree, name, "DataFrame")
+    body = [st for st in fn.body if not (isinstance(st, ast.Expr) and isinstance(st.value, ast.Constant))]
+    if len(body) == 1 and isinstance(body[0], ast.Return) and isinstance(body[0].value, ast.Call) \
+            and isinstance(body[0].value.func, ast.Attribute) and ast.unparse(body[0].value.func.value) == "self" \
+            and body[0].value.func.attr in DERIVING and body[0].value.func.attr != name and depth < 3:
+        return {"slice": "sliceOwnsRows"}.get(body[0].value.func.attr) or owns_rows(src, body[0].value.func.attr, depth + 1)
+    binds = {}
+    for n in ast.walk(fn):
+        if isinstance(n, ast.Assign) and len(n.targets) == 1 and isinstance(n.targets[0], ast.Name):
+            binds.setdefault(n.targets[0].id, []).append(n.value)
+        elif isinstance(n, (ast.AugAssign, ast.AnnAssign)) and isinstance(n.target, ast.Name):
+            binds.setdefault(n.target.id, []).append(n.value if n.value is not None else ast.Constant(None))
+        elif isinstance(n, (ast.For, ast.comprehension)) and isinstance(n.target, ast.Name):
+            binds.setdefault(n.target.id, []).append(None)  # a loop variable: an element, not a list we know
+
+    def fresh(e, seen=()):
+        if isinstance(e, ast.Subscript) and isinstance(e.slice, ast.Slice):
+            return True
+        if isinstance(e, (ast.List, ast.ListComp)):
+            return True
+        if isinstance(e, ast.Call) and isinstance(e.func, ast.Name) and e.func.id in ("list", "sorted") and len(e.args) == 1:
+            return True
+        if isinstance(e, ast.BinOp) and isinstance(e.op, ast.Add):
+            return True  # xs + ys is a new list whatever xs and ys are
+        if isinstance(e, ast.IfExp):
+            return fresh(e.body, seen) and fresh(e.orelse, seen)
+        if isinstance(e, ast.Attribute) and ast.unparse(e) in ("self._rows", "the_other._rows"):
+            return False
+        if isinstance(e, ast.Name) and e.id in binds and e.id not in seen:
+            if any(v is None for v in binds[e.id]):
+                raise Untranslatable("rows= a loop variable: " + e.id)
+            return all(fresh(v, seen + (e.id,)) for v in binds[e.id])
+        raise Untranslatable("rows= " + ast.unparse(e)[:50])
+
+    ok = True
+    built = 0
+    for n in ast.walk(fn):
+        if isinstance(n, ast.Return) and n.value is not None and ast.unparse(n.value) == "self":
+            ok = False
+        if isinstance(n, (ast.Yield, ast.YieldFrom)) and n.value is not None and ast.unparse(n.value) == "self":
+            ok = False
+        if isinstance(n, ast.Call) and ast.unparse(n.func) in ("DataFrame", "cls", "type(self)", "self.__class__"):
+            built += 1
+            kw = [k for k in n.keywords if k.arg == "rows"]
+            if any(k.arg is None for k in n.keywords) or (n.args and not kw):
+                raise Untranslatable("DataFrame(…) built from positional / ** arguments in " + name)
+            if kw and not _is_view(kw[0].value, fn):
+                ok = ok and fresh(kw[0].value)
+    if built == 0 and ok:
+        raise KeyError("%s builds no DataFrame" % name)
+    return "true" if ok else "false"
+
+
 def generate(o):
     src = Src("orso/dataframe.py")
     conv = Src("orso/converters.py")
@@ -350,5 +431,16 @@ def generate(o):
     t += "instance (p m : Int) : Decidable (limitReached p m) := by unfold limitReached; infer_instance\n"
     t += "def processedAfter (processed : Int) : Int := %s\n" % inc
     t += "def skipsEmptyTables : Bool := %s\n" % ("true" if sk else "false")
+    t += "/-- the methods that hand out a new frame over rows of this one: does the new frame own its row list\n"
+    t += "(`true`), or is it given the parent's own `self._rows` (`false`: two cursors over one list) -/\n"
+    for meth, lean in (("slice", "sliceOwnsRows"), ("head", "headOwnsRows"), ("tail", "tailOwnsRows"), ("query", "queryOwnsRows"),
+                       ("distinct", "distinctOwnsRows"), ("__add__", "addOwnsRows"), ("to_batches", "batchesOwnsRows")):
+        v = o.item("cursor.derived.%s.owns_rows" % meth, lambda meth=meth: owns_rows(src, meth), PINNED["ownsRows"])
+        t += "def %s : Bool := %s\n" % (lean, v)
+    t += "/-- `select` / `filter` / `take` hand out a new frame over a generator (or over a list of its own) — never `self`,\n"
+    t += "never the parent's list -/\n"
+    for meth, lean in (("select", "selectIsNewFrame"), ("filter", "filterIsNewFrame"), ("take", "takeIsNewFrame")):
+        v = o.item("cursor.derived.%s.new_frame" % meth, lambda meth=meth: owns_rows(src, meth), PINNED["ownsRows"])
+        t += "def %s : Bool := %s\n" % (lean, v)
     t += "end Gen.Cursor\n"
     o.files["CursorExpr.lean"] = t
